@@ -180,6 +180,32 @@ Theorem C04_shipped_plans_auto_head :
   forall name plan, In (name, plan) all_plans -> auto_head_only plan = true.
 Proof. exact shipped_auto_head. Qed.
 
+(** * no empty LMI (/repo 818e4b8: the linear operator classes guard their LMI by `if N > 0`) *)
+(** the guarded LMI statement generates the matrix over the samples iff there is at least one sample ... *)
+Theorem C04_guarded_lmi_iff :
+  forall st l entry m,
+    In m (item_lmis st (Guarded (GNonEmpty l) (LMI l entry))) <->
+    get_list st l <> [] /\ m = map (fun si => map (fun sj => instX st entry si sj) (get_list st l)) (get_list st l).
+Proof. exact guarded_lmi_iff. Qed.
+
+(** ... a plan all of whose LMI statements are guarded never generates a 0 x 0 LMI ... *)
+Theorem C04_no_empty_lmi :
+  forall plan st m,
+    auto_head_only plan = true -> forallb lmi_guarded plan = true ->
+    In m (g_lmis (run_plan plan st)) -> m <> [].
+Proof. exact no_empty_lmi. Qed.
+
+(** ... and the LMI statements of LinearOperator (both), SymmetricLinearOperator and SkewSymmetricLinearOperator, as
+    found in the sources, ARE guarded: whatever was recorded (nothing, samples of the operator only, of its
+    transpose only), every generated LMI has size >= 1.  (The unguarded form is translated to the plain [LMI] item,
+    for which this fails.) *)
+Theorem C04_linear_classes_no_empty_lmi :
+  forall st m,
+    (In m (g_lmis (run_plan plan_LinearOperator st)) -> m <> []) /\
+    (In m (g_lmis (run_plan plan_SymmetricLinearOperator st)) -> m <> []) /\
+    (In m (g_lmis (run_plan plan_SkewSymmetricLinearOperator st)) -> m <> []).
+Proof. exact linear_classes_no_empty_lmi. Qed.
+
 (** * known finding F-C04b *)
 Theorem C04_skew_diagonal_refuted :
   exists st si, f_points st = [si] /\
@@ -463,6 +489,9 @@ Print Assumptions C04_run_plan_items_spec.
 Print Assumptions C04_run_plan_items_spec_simple.
 Print Assumptions C04_run_plan_lmis_spec_simple.
 Print Assumptions C04_shipped_plans_auto_head.
+Print Assumptions C04_guarded_lmi_iff.
+Print Assumptions C04_no_empty_lmi.
+Print Assumptions C04_linear_classes_no_empty_lmi.
 Print Assumptions C04_skew_diagonal_refuted.
 Print Assumptions C04_skew_offdiagonal_partial.
 Print Assumptions C04_linear_adjoint_complete.
